@@ -482,6 +482,11 @@ func (sc *scope) randomArgs(shape string, r *vh.RNG) []Val {
 					t[r.Intn(len(t))] = rz()
 				}
 				v = VL(t)
+			} else if p == "t" && r.Chance(1, 4) && len(firstS()) > 0 { // a window of the first slice (view shape)
+				f := firstS()
+				lo := r.Intn(len(f))
+				hi := lo + 1 + r.Intn(len(f)-lo)
+				v = VL(append([]int64{}, f[lo:hi]...))
 			}
 			a = append(a, v)
 		case "s+":
